@@ -180,7 +180,8 @@ def real_groups(tier, seed):
                 calls.append("run_rctor<%s,%s>(0u);" % (t, ds))
                 calls.append("run_rilist<%s,%s>([]{ return Tensor<%s,%s>%s; });" % (t, ds, t, ds, rnested(list(s))[0]))
             for n in (rng.sample([2, 3, 4, 5, 8], 1) if quick else [2, 3, 4, 5, 7, 8]):
-                calls.append("run_rstaged<%s,%d>(%du);" % (t, n, seed * 17 + n))
+                calls.append("run_rstaged<%s,%d,false>(%du);" % (t, n, seed * 17 + n))
+                calls.append("run_rstaged<%s,%d,true>(%du);" % (t, n, seed * 19 + n))
             groups.append({"key": "%s/%s" % (isa, t), "header": "map_real.h", "isa": isa, "opt": "-O2", "calls": calls,
                            "pre": "static bool g_verbose=false;"})
     return groups
